@@ -21,7 +21,7 @@ from .. import fs, locref, witness
 LEVEL = 'model_checking'
 
 KINDS = ('code', 'blank', 'mark', 'markflag', 'line', 'linefile', 'spliced', 'comment2', 'linecomment', 'invoc3',
-         'define2', 'pragma', 'splicefirst', 'linecomment2', 'stringsplice', 'dotsplice')
+         'define2', 'pragma', 'splicefirst', 'linecomment2', 'stringsplice', 'dotsplice', 'multisplice', 'definesplices')
 DIRECTIVES = ('mark', 'markflag', 'line', 'linefile')
 NS = (10, 1, 2147483647)
 FS = ('a%s.c', 'b%s.h')
@@ -94,6 +94,10 @@ def kind_lines(kind, pos, n, f, uid):
         return ['char *a%s = "x\\' % pos, 'y";'], ['string-open', 'string-cont']
     if kind == 'dotsplice':         # the scanner's look-ahead behind '..' crosses a backslash-newline
         return ['char *a%s = Q(..\\' % pos, ');'], ['dots-open', 'dots-cont']
+    if kind == 'multisplice':       # several backslash-newline pairs directly after one another (lines holding only a backslash)
+        return ['int a%s \\' % pos, '\\', '\\', ';'], ['splice-open', 'splice-only', 'splice-only', 'splice-cont']
+    if kind == 'definesplices':     # a definition continued over lines, two of them empty but for the backslash
+        return ['#define D%s 1 \\' % pos, '\\', '\\', '+ 2'], ['define-open', 'splice-only', 'splice-only', 'define-cont']
     if kind == 'splicefirst':
         return ['\\', 'int a%s;' % pos], ['splice-first', 'splice-cont']
     raise ValueError(kind)
